@@ -148,6 +148,14 @@ def pipe_configs(quick: bool) -> list[dict]:
 
 
 def norm(code: str) -> str:
+    """Source of one statement, independent of layout and of the quote style of string literals (the
+    exported file is formatted by black, the snapshots come from the test case's own CST)."""
+    import ast  # noqa: PLC0415
+
+    try:
+        code = ast.unparse(ast.parse(code.strip()))
+    except (SyntaxError, ValueError):
+        pass
     return "".join(code.split())
 
 
